@@ -165,7 +165,9 @@ Record callctx := mkCtx {
   caller : option addr;    (* ContextRef.CallingContext().ContractAddress, if any *)
   now : Z;                 (* native.Time (uint32) *)
   preexec : bool;          (* native.PreExec *)
-  v2on : bool              (* native.Height >= config.GetAddDecimalsHeight() *)
+  v2on : bool;             (* native.Height >= config.GetAddDecimalsHeight() *)
+  wrap64 : bool            (* native.Height <= config.GetUint64WrappingHeight(): OntTransfer decodes
+                              amounts with DecodeVarUintWrapping (low 64 bits of any value >= 0) *)
 }.
 
 (** SmartContract.CheckWitness: checkAccountAddress || checkContractAddress *)
@@ -256,9 +258,14 @@ Section Token.
     transfered_from c ONG sender from to value ;;;
     ret true.
 
-  Definition decode_states (v2 : bool) (l : list tstate) : M (list (addr * addr * Z)) :=
-    guard (forallb (fun x => match x with TS _ _ v => decode_ok v2 v end) l) EDecode ;;;
-    ret (map (fun x => match x with TS f t v => (f, t, to_v2 v2 v) end) l).
+  (** [wrap]: TransferStates.uint64Wrapping (only OntTransfer sets it, V1 only) *)
+  Definition decode_states (v2 wrap : bool) (l : list tstate) : M (list (addr * addr * Z)) :=
+    if negb v2 && wrap then
+      guard (forallb (fun x => match x with TS _ _ v => 0 <=? v end) l) EDecode ;;;
+      ret (map (fun x => match x with TS f t v => (f, t, (v mod two64) * tk_scale) end) l)
+    else
+      guard (forallb (fun x => match x with TS _ _ v => decode_ok v2 v end) l) EDecode ;;;
+      ret (map (fun x => match x with TS f t v => (f, t, to_v2 v2 v) end) l).
 
   (** NativeService.Invoke on the ONG contract: method lookup (the V2 methods are registered only
       when Height >= GetAddDecimalsHeight), argument decoding, handler. *)
@@ -266,7 +273,7 @@ Section Token.
     match o with
     | Transfer v2 l =>
         guard (negb v2 || v2on c) ENoMethod ;;;
-        sts <- decode_states v2 l ;;
+        sts <- decode_states v2 false l ;;
         ong_do_transfer c sts
     | Approve v2 from to value =>
         guard (negb v2 || v2on c) ENoMethod ;;;
@@ -283,7 +290,7 @@ Section Token.
   (** The context of a NativeCall made by the ONT contract: same transaction, the calling
       context is the ONT contract. *)
   Definition from_ont (c : callctx) : callctx :=
-    mkCtx (signers c) (Some tk_ont_addr) (now c) (preexec c) (v2on c).
+    mkCtx (signers c) (Some tk_ont_addr) (now c) (preexec c) (v2on c) (wrap64 c).
 
   (** grantOng(native, contract, address, balance) *)
   Definition grant_ong (c : callctx) (a : addr) (balance : Z) : M unit :=
@@ -338,7 +345,7 @@ Section Token.
     match o with
     | Transfer v2 l =>
         guard (negb v2 || v2on c) ENoMethod ;;;
-        sts <- decode_states v2 l ;;
+        sts <- decode_states v2 (wrap64 c) l ;;
         ont_do_transfer c sts
     | Approve false from to value =>
         guard (decode_ok false value) EDecode ;;;
@@ -399,6 +406,14 @@ Record inv (s : state) : Prop := {
   inv_bal : forall t a, 0 <= balf s t a;
   inv_allow : forall t o sp, 0 <= allowf s t o sp
 }.
+
+(** Decidable version of [inv] on a stored state (used on every state the harness dumps). *)
+Fixpoint nodupb (l : list N) : bool :=
+  match l with [] => true | x :: r => negb (existsb (N.eqb x) r) && nodupb r end.
+Definition nonnegb {K} (l : amap K) : bool := forallb (fun p => 0 <=? snd p) l.
+Definition inv_check (s : state) : bool :=
+  nodupb (map fst (ont_bal s)) && nodupb (map fst (ong_bal s))
+  && nonnegb (ont_bal s) && nonnegb (ong_bal s) && nonnegb (ont_allow s) && nonnegb (ong_allow s).
 
 (** [a] witnessed the call, in the sense of SmartContract.CheckWitness (it signed the
     transaction or it is the calling contract). *)
